@@ -34,7 +34,7 @@ PROBES = ["fault_free_runs", "files_structurally_compared", "adjusted_rules_mask
           "crash_mid_write", "fault:eacces-out", "fault:enospc-out", "fault:eacces-report", "fault:enospc-report",
           "fault:eacces-in", "fault:eio-in", "fault:eio-close-out", "dir_invocation", "file_invocation", "cwd_is_tree", "bystanders_checked",
           "feat:opaque-atrules", "feat:odd-strings", "feat:vendor-hacks", "feat:star-hack", "feat:crlf", "feat:bom", "feat:cdo-cdc",
-          "feat:non-ascii", "feat:nesting", "feat:vars", "feat:unicode-seps", "feat:dup-root", "feat:nested-root", "feat:dup-selectors", "noarg_invocation", "glue_comment_needed", "report_written", "stale_output_overwritten",
+          "feat:non-ascii", "feat:nesting", "feat:vars", "feat:unicode-seps", "feat:dup-root", "feat:nested-root", "feat:dup-selectors", "feat:comment-in-value", "feat:stale-charset", "feat:css-nesting", "feat:own-colour-elsewhere", "noarg_invocation", "glue_comment_needed", "report_written", "stale_output_overwritten",
           "cm_named_stylesheet_as_file_argument", "cm_named_stylesheet_as_bystander", "symlinked_stylesheet_input"]
 
 C09_FEATURES = gen.ALL_FEATURES
